@@ -32,9 +32,12 @@ sequence number and carry the identity (burst, command index) of the command the
 callback's argument says which command it is the reply to.
 
 Modelling assumption `lifetime` (default on): a reply is never delivered after its sequence number has been
-re-issued to another command.  When a datagram for a (burst, command) not seen before goes out with sequence
-number s, every undelivered reply with sequence number s that answers another command is discarded (counted
-in `expired`).
+re-issued to another command *as the protocol defines re-issue*: the environment runs the reference allocation
+rule itself (a counter modulo seqmod that skips numbers of commands still unanswered) and, when that rule gives
+a new command the number an earlier command had, discards every undelivered reply to the earlier command
+(counted in `expired`).  For an implementation that follows the rule the reference number of every command is
+the number it actually uses; an implementation that re-uses a number EARLIER than the rule allows (e.g. by
+restarting its counter) is not protected by the assumption and meets the stale replies.
 
 Everything observable is appended, in program order, to `events`:
     ["send", seq, cmd, burst, t, kind]              a datagram handed to socket.send
@@ -100,7 +103,7 @@ class VirtualNet(object):
     error = IOError
 
     def __init__(self, codec, fates=(), default=None, overs=(), lifetime=True, max_selects=4000, start=0,
-                 quantum=QUANTUM):
+                 quantum=QUANTUM, seqmod=65536):
         self.codec = codec              # .request(bytes) -> (seq, cmd, burst); .reply(seq, rc, cmd, burst, txid) -> bytes
         self.fates = list(fates)
         self.default = default
@@ -117,6 +120,10 @@ class VirtualNet(object):
         self.nselect = 0
         self.idle = None                # instant of the last fruitless zero-time-out select
         self.seen = set()               # (burst, cmd) transmitted at least once
+        self.seqmod = seqmod
+        self.ref_next = 0               # the reference allocator: next number to try
+        self.ref_out = {}               # reference number -> (burst, cmd) still unanswered
+        self.ref_of = {}                # (burst, cmd) -> reference number
         self.expired = 0
         self.used = []                  # fates actually applied, in order
         self.sockets = []
@@ -182,8 +189,19 @@ class VirtualNet(object):
         self.used.append(fate)
         if (burst, cmd) not in self.seen:
             self.seen.add((burst, cmd))
+            # a new call on the connection: whatever the previous call left unanswered is abandoned
+            for r, bc in list(self.ref_out.items()):
+                if bc[0] != burst:
+                    del self.ref_out[r]
+            ref = self.ref_next
+            while ref in self.ref_out:
+                ref = (ref + 1) % self.seqmod
+            self.ref_next = (ref + 1) % self.seqmod
+            self.ref_out[ref] = (burst, cmd)
+            self.ref_of[(burst, cmd)] = ref
             if self.lifetime:
-                keep = [d for d in self.inflight if not (d[3][0] == seq and (d[3][3], d[3][2]) != (burst, cmd))]
+                keep = [d for d in self.inflight
+                        if not (self.ref_of.get((d[3][3], d[3][2])) == ref and (d[3][3], d[3][2]) != (burst, cmd))]
                 self.expired += len(self.inflight) - len(keep)
                 self.inflight = keep
         self.events.append(["send", seq, cmd, burst, self.tick(self.now), fate[0]])
@@ -200,6 +218,8 @@ class VirtualNet(object):
         d = min(ready, key=lambda d: (d[0], d[1]))
         self.inflight.remove(d)
         seq, rc, cmd, burst = d[3]
+        if rc == 0x80 and self.ref_out.get(self.ref_of.get((burst, cmd))) == (burst, cmd):
+            del self.ref_out[self.ref_of[(burst, cmd)]]      # answered: its number may be given out again
         self.events.append(["recv", seq, rc, self.tick(self.now), burst, cmd])
         return d[2][:n]
 
